@@ -2,7 +2,7 @@
    (The ADVAN/TRANS table obligations are REGENERATED from advan.py on every run into
    build/gen/C01/AdvanObligations.v and compiled there; see harness/props/c01_tadvan.py.) *)
 From Coq Require Import QArith List Bool PArith Arith.
-From PV Require Import Base.PyData Base.Expr Base.Stmts C01.Model C01.Proofs C01.ProofsRates C01.ProofsParams C01.ProofsOmega C01.Parser C01.ParserProofs C01.Des C01.ProofsDes.
+From PV Require Import Base.PyData Base.Expr Base.Stmts C01.Model C01.Proofs C01.ProofsRates C01.ProofsParams C01.ProofsOmega C01.Parser C01.ParserProofs C01.Des C01.ProofsDes C01.PrecPrinter C01.ProofsPrec.
 Local Open Scope nat_scope.
 
 (* Reading abbreviated code preserves its meaning.  For EVERY program (any length, any nesting,
@@ -175,3 +175,21 @@ Theorem des_flow_source :
     des_guard eqs = true -> In e eqs -> In t (snd e) -> dt_pos t = true ->
     find_from eqs (dt_k t) (dt_a t) = Some (dt_a t).
 Proof. intros eqs e t Hg. exact (find_from_pos eqs Hg e t). Qed.
+
+(* The MINIMAL-PARENTHESES (precedence) printer.  [prp lvl e] parenthesises an operand only where its
+   precedence level requires it (a + b*c, -a**2, a**b**c, a/b*c, a - (b + c), (a + b)*c ...); prP_body prints
+   programs with it.  For EVERY well-formed program (any size, any nesting) the reference parser, given at
+   least 40 * bsize p units of fuel, reads the printed tokens back as the program itself; likewise for
+   every well-formed expression.  (Uses the fuel monotonicity of the parser; parse_prog's own fuel
+   24 * length + 24 is proved sufficient only for the fully parenthesising printer above.) *)
+Theorem parse_print_prec :
+  forall p : body, wf_body p = true -> forall n, 40 * bsize p <= n -> p_body n (prP_body p) = Some (p, nil).
+Proof. exact parse_print_prec_lemma. Qed.
+
+Theorem parse_print_prec_expr :
+  forall e : expr, wfe e = true -> forall n, 40 * esize e + 6 <= n -> p_add n (prE e) = Some (e, nil).
+Proof. exact parse_print_prec_expr_lemma. Qed.
+
+(* more fuel never changes a successful parse (all seven mutually recursive parser functions) *)
+Theorem parser_fuel_monotone : forall n, mono_at n.
+Proof. exact mono_all. Qed.
